@@ -254,11 +254,12 @@ func c10SeedExisting(st *Store, t *c10Tpl) {
 
 // c10ComposeOut is what one real PTComposer.Compose did.
 type c10ComposeOut struct {
-	ec     string
-	pn     string
-	cl     *c10RecClient
-	xr     *ucomposite.Unstructured
-	synced []any
+	revMutated string
+	ec         string
+	pn         string
+	cl         *c10RecClient
+	xr         *ucomposite.Unstructured
+	synced     []any
 }
 
 // c10ComposeOnce runs the real PTComposer.Compose for the templates `sel` of the scenario (in
@@ -327,11 +328,15 @@ func c10ComposeOnce(cs *c10ComposeScn, sel []int, faults bool) (*c10ComposeOut, 
 	}
 	comp := composite.NewPTComposer(cl, cl, composite.WithComposedNameGenerator(namer))
 	out := &c10ComposeOut{cl: cl, xr: xr, synced: []any{}}
+	// the revision as the API server delivers it (decoded from JSON: the decoder's slice capacities)
+	rev = c10WireRevision(rev)
+	snap := c10SnapshotRevision(rev)
 	var res composite.CompositionResult
 	var cerr error
 	out.pn = Guard(func() {
 		res, cerr = comp.Compose(context.Background(), xr, composite.CompositionRequest{Revision: rev})
 	})
+	out.revMutated = c10RevisionMutated(snap, rev)
 	out.ec = c10ComposeErrClass(cerr)
 	if out.pn != "" {
 		out.ec = "panic"
@@ -676,6 +681,9 @@ func c10RunCompose(s *c10Scn) (any, []Mon, string) {
 	}
 	if strings.HasPrefix(ec, "other:") {
 		mons = append(mons, Mon{Sig: "C10:unclassified-error", Why: ec})
+	}
+	if run.revMutated != "" {
+		mons = append(mons, Mon{Sig: "C10:revision-mutated", Why: "Compose wrote to the CompositionRevision it was handed: " + run.revMutated})
 	}
 	if pn == "" && !reflect.DeepEqual(c10UserPart(xr.Object), c10UserPart(xrC)) {
 		mons = append(mons, Mon{Sig: "C10:source-modified", Why: "the spec or the metadata of the composite resource was modified by Compose"})
